@@ -309,6 +309,9 @@ def mon_audience(seq, ctx):
             if cn and cn["auth"]:
                 me = cn["nick"]
                 src = cn["src"]
+                # "the sender's current nick!user@host", rebuilt from the parts (never from a stored string)
+                if me in prev.users:
+                    src = "%s!~%s@%s" % (me, prev.users[me]["name"], prev.users[me]["host"])
                 seen = set()
                 for d, lines in op.outs.items():
                     dn = prev.conns.get(d, {}).get("nick")
@@ -551,6 +554,9 @@ def mon_source(seq, ctx):
         for nick, u in st.users.items():
             if not u["src"].startswith(nick + "!"):
                 return [fail("source", "stale-user-source", op, nick=nick, source=u["src"])]
+            if u["src"] != "%s!~%s@%s" % (nick, u["name"], u["host"]):
+                return [fail("source", "source-is-not-nick-user-host", op, nick=nick, source=u["src"],
+                             expected="%s!~%s@%s" % (nick, u["name"], u["host"]))]
         for c, cn in st.conns.items():
             if cn["auth"] and cn["nick"] is not None and cn["nick"] in st.users and not cn["quit"]:
                 if cn["src"] != st.users[cn["nick"]]["src"]:
